@@ -1,0 +1,25 @@
+//go:build verif
+
+package node
+
+import "gitlab.com/aquachain/aquachain/rpc"
+
+// VerifHandlers returns the RPC server of every transport that is up, and where it listens (verification harness only).
+func (n *Node) VerifHandlers() (handlers map[string]*rpc.Server, endpoints map[string]string) {
+	n.lock.RLock()
+	defer n.lock.RUnlock()
+	handlers, endpoints = map[string]*rpc.Server{}, map[string]string{}
+	if n.inprocHandler != nil {
+		handlers["inproc"] = n.inprocHandler
+	}
+	if n.ipcHandler != nil {
+		handlers["ipc"], endpoints["ipc"] = n.ipcHandler, n.ipcEndpoint
+	}
+	if n.httpHandler != nil {
+		handlers["http"], endpoints["http"] = n.httpHandler, "http://"+n.httpListener.Addr().String()
+	}
+	if n.wsHandler != nil {
+		handlers["ws"], endpoints["ws"] = n.wsHandler, "ws://"+n.wsListener.Addr().String()
+	}
+	return
+}
